@@ -17,7 +17,7 @@ import (
 const zzF1Super = `
 type Query { me: User users: [User!]! topProducts: [Product] }
 type User { id: ID! name: String! username: String reviews: [Review!]! }
-type Review { id: ID! body: String! author: User! product: Product }
+type Review { id: ID! body: String! text(format: String, n: Int): String author: User! product: Product }
 type Product { upc: String! name: String price: Int reviews: [Review!] }
 `
 const zzF1Users = `
@@ -26,7 +26,7 @@ type User @key(fields: "id") { id: ID! name: String! username: String }
 `
 const zzF1Reviews = `
 type User @key(fields: "id") { id: ID! reviews: [Review!]! }
-type Review @key(fields: "id") { id: ID! body: String! author: User! product: Product }
+type Review @key(fields: "id") { id: ID! body: String! text(format: String, n: Int): String author: User! product: Product }
 type Product @key(fields: "upc") { upc: String! reviews: [Review!] }
 `
 const zzF1Products = `
@@ -70,7 +70,7 @@ func zzFed1() *zzFed {
 				FederationMetaData: plan.FederationMetaData{Keys: []plan.FederationFieldConfiguration{zzKey("User", "id")}},
 			}),
 			zzFedDS(f, "reviews", "http://reviews", zzF1Reviews, &plan.DataSourceMetadata{
-				RootNodes:          []plan.TypeField{{TypeName: "User", FieldNames: []string{"id", "reviews"}}, {TypeName: "Review", FieldNames: []string{"id", "body", "author", "product"}}, {TypeName: "Product", FieldNames: []string{"upc", "reviews"}}},
+				RootNodes:          []plan.TypeField{{TypeName: "User", FieldNames: []string{"id", "reviews"}}, {TypeName: "Review", FieldNames: []string{"id", "body", "text", "author", "product"}}, {TypeName: "Product", FieldNames: []string{"upc", "reviews"}}},
 				FederationMetaData: plan.FederationMetaData{Keys: []plan.FederationFieldConfiguration{zzKey("User", "id"), zzKey("Review", "id"), zzKey("Product", "upc")}},
 			}),
 			zzFedDS(f, "products", "http://products", zzF1Products, &plan.DataSourceMetadata{
@@ -91,8 +91,8 @@ func zzWorld1(deviation int) *zzWorld {
 	u2 := &zzO{typ: "User", f: map[string]interface{}{"id": zzS("2"), "name": zzS("Bob"), "username": nil}}
 	p1 := &zzO{typ: "Product", f: map[string]interface{}{"upc": zzS("p1"), "name": zzS("Table"), "price": "10"}}
 	p2 := &zzO{typ: "Product", f: map[string]interface{}{"upc": zzS("p2"), "name": nil, "price": nil, "reviews": nil}}
-	r1 := &zzO{typ: "Review", f: map[string]interface{}{"id": zzS("r1"), "body": zzS("good"), "author": u1, "product": p1}}
-	r2 := &zzO{typ: "Review", f: map[string]interface{}{"id": zzS("r2"), "body": zzS("bad"), "author": u2, "product": nil}}
+	r1 := &zzO{typ: "Review", f: map[string]interface{}{"id": zzS("r1"), "body": zzS("good"), "text": zzS("t1"), "author": u1, "product": p1}}
+	r2 := &zzO{typ: "Review", f: map[string]interface{}{"id": zzS("r2"), "body": zzS("bad"), "text": zzS("t2"), "author": u2, "product": nil}}
 	u1.f["reviews"] = []interface{}{r1, r2}
 	u2.f["reviews"] = []interface{}{}
 	p1.f["reviews"] = []interface{}{r1}
